@@ -469,13 +469,15 @@ theorem tagsOK_all (ber : Bytes) : ∀ f : Nat,
                   exact hcons _ _ hi
           | false =>
             simp only [Bool.false_eq_true, if_false] at h
-            cases hi : readItems f ber e1 ce false d with
-            | error e => simp [hi] at h
-            | ok r =>
-              obtain ⟨os1, e2⟩ := r
-              simp only [hi] at h
-              injection h with h; injection h with h _; subst h
-              exact hcons _ _ hi
+            split at h
+            · simp at h
+            · cases hi : readItems f ber e1 ce false d with
+              | error e => simp [hi] at h
+              | ok r =>
+                obtain ⟨os1, e2⟩ := r
+                simp only [hi] at h
+                injection h with h; injection h with h _; subst h
+                exact hcons _ _ hi
 
 mutual
 /-- an object tree with well-shaped tags whose encoding is shorter than 2^31 bytes is well-formed: all
